@@ -2,6 +2,8 @@ package hcv
 
 import (
 	"fmt"
+	"go/constant"
+	"go/token"
 	"sort"
 	"strings"
 
@@ -23,6 +25,9 @@ func (an *Analysis) Prune(fn *ssa.Function, assume Assume) *Pruned {
 	if len(fn.Blocks) == 0 {
 		return pr
 	}
+	// Optimistic sparse conditional propagation: edges are dead until proven live; a condition that compares a phi of
+	// (so far live) identical constants with a constant is folded. Live sets only grow, folded conditions can only
+	// become unknown, so the iteration is monotone and ends at a sound over-approximation of the reachable edges.
 	succLive := func(b *ssa.BasicBlock) []*ssa.BasicBlock {
 		if len(b.Instrs) == 0 {
 			return b.Succs
@@ -44,19 +49,32 @@ func (an *Analysis) Prune(fn *ssa.Function, assume Assume) *Pruned {
 					return b.Succs[1:2]
 				}
 			}
+			if truth, ok := pr.foldCond(iff.Cond, 0); ok {
+				if truth {
+					return b.Succs[:1]
+				}
+				return b.Succs[1:2]
+			}
 		}
 		return b.Succs
 	}
-	wl := []*ssa.BasicBlock{fn.Blocks[0]}
 	pr.LiveBlock[0] = true
-	for len(wl) > 0 {
-		b := wl[len(wl)-1]
-		wl = wl[:len(wl)-1]
-		for _, s := range succLive(b) {
-			pr.liveEdge[[2]int{b.Index, s.Index}] = true
-			if !pr.LiveBlock[s.Index] {
-				pr.LiveBlock[s.Index] = true
-				wl = append(wl, s)
+	for changed := true; changed; {
+		changed = false
+		for _, b := range fn.Blocks {
+			if !pr.LiveBlock[b.Index] {
+				continue
+			}
+			for _, s := range succLive(b) {
+				e := [2]int{b.Index, s.Index}
+				if !pr.liveEdge[e] {
+					pr.liveEdge[e] = true
+					changed = true
+				}
+				if !pr.LiveBlock[s.Index] {
+					pr.LiveBlock[s.Index] = true
+					changed = true
+				}
 			}
 		}
 	}
@@ -65,6 +83,68 @@ func (an *Analysis) Prune(fn *ssa.Function, assume Assume) *Pruned {
 		pr.LiveBlock[fn.Recover.Index] = true
 	}
 	return pr
+}
+
+// liveConst: v is a constant, or a phi whose currently live incomings are all the same constant.
+func (pr *Pruned) liveConst(v ssa.Value, depth int) (*ssa.Const, bool) {
+	if depth > 4 {
+		return nil, false
+	}
+	switch x := v.(type) {
+	case *ssa.Const:
+		return x, x.Value != nil
+	case *ssa.Phi:
+		var got *ssa.Const
+		n := 0
+		for i, pred := range x.Block().Preds {
+			if !(pr.LiveBlock[pred.Index] && pr.liveEdge[[2]int{pred.Index, x.Block().Index}]) {
+				continue
+			}
+			c, ok := pr.liveConst(x.Edges[i], depth+1)
+			if !ok {
+				return nil, false
+			}
+			if got != nil && !constantEqual(got, c) {
+				return nil, false
+			}
+			got = c
+			n++
+		}
+		return got, n > 0
+	}
+	return nil, false
+}
+
+func constantEqual(a, b *ssa.Const) bool {
+	if a.Value == nil || b.Value == nil {
+		return a.Value == nil && b.Value == nil
+	}
+	return constant.Compare(a.Value, token.EQL, b.Value)
+}
+
+// foldCond folds `x op c` (and !cond) when both sides are live constants.
+func (pr *Pruned) foldCond(v ssa.Value, depth int) (bool, bool) {
+	switch x := v.(type) {
+	case *ssa.UnOp:
+		if x.Op == token.NOT {
+			t, ok := pr.foldCond(x.X, depth+1)
+			return !t, ok
+		}
+	case *ssa.BinOp:
+		switch x.Op {
+		case token.EQL, token.NEQ, token.LSS, token.LEQ, token.GTR, token.GEQ:
+			l, ok1 := pr.liveConst(x.X, 0)
+			r, ok2 := pr.liveConst(x.Y, 0)
+			if ok1 && ok2 && l.Value.Kind() == r.Value.Kind() {
+				return constant.Compare(l.Value, x.Op, r.Value), true
+			}
+		}
+	case *ssa.Phi:
+		if c, ok := pr.liveConst(x, depth); ok && c.Value.Kind() == constant.Bool {
+			return constant.BoolVal(c.Value), true
+		}
+	}
+	return false, false
 }
 
 func (pr *Pruned) EdgeLive(from, to *ssa.BasicBlock) bool { return pr.liveEdge[[2]int{from.Index, to.Index}] }
